@@ -169,8 +169,8 @@ func (sc *Scenario) flowsJSON() []any {
 	exits := []any{}
 	for _, e := range sc.Exits {
 		m := map[string]any{"uuid": e.UUID}
-		if e.Dest >= 0 {
-			m["destination_uuid"] = nodeD(e.Dest)
+		if d := sc.destUUID(e.Dest); d != "" {
+			m["destination_uuid"] = d
 		}
 		exits = append(exits, m)
 	}
@@ -308,6 +308,11 @@ func (sc *Scenario) drive(sa flows.SessionAssets, env envs.Environment, flowID s
 		trigger = triggers.NewBuilder(env, flow.Reference(false), contact).Manual().Build()
 	}
 	random.SetGenerator(rand.New(sc.randSource()))
+	if sc.SecondTimeout {
+		// every dates.Now() a second later than the one before, so that the two timeouts have different times
+		dates.SetNowFunc(dates.NewSequentialNow(fixedNow, time.Second))
+		defer dates.SetNowFunc(dates.NewFixedNow(fixedNow))
+	}
 	session, sprint, err := eng.NewSession(sa, trigger)
 	out.session = session
 	if err != nil {
@@ -328,6 +333,14 @@ func (sc *Scenario) drive(sa flows.SessionAssets, env envs.Environment, flowID s
 			return
 		}
 		out.sprints = append(out.sprints, sprint)
+		if sc.SecondTimeout && flowID == flowUUID() && session.Status() == flows.SessionStatusWaiting {
+			sprint, err = session.Resume(resumes.NewWaitTimeout(nil, nil))
+			if err != nil {
+				out.err = err
+				return
+			}
+			out.sprints = append(out.sprints, sprint)
+		}
 	}
 	return
 }
@@ -519,12 +532,19 @@ type NodeObs struct {
 
 type Obs struct {
 	R     NodeObs  `json:"node"`
+	// formatted creation times of the run's wait_timed_out events, oldest first (input of RouteTimeout's scan)
+	Timeouts []string `json:"timeouts"`
 	P     *NodeObs `json:"pre_node,omitempty"`
 	D     *NodeObs `json:"dest_node,omitempty"`
 	DNode string   `json:"dest_node_uuid,omitempty"`
 }
 
 func observeNode(out runOut, sprintIdx int, nodeUUID string, exitUUIDs map[string]bool, resultName string) NodeObs {
+	return observeNodeAt(out, sprintIdx, nodeUUID, -1, exitUUIDs, resultName)
+}
+
+// occurrence: which visit of the node (0-based) is observed; -1 = the last one
+func observeNodeAt(out runOut, sprintIdx int, nodeUUID string, occurrence int, exitUUIDs map[string]bool, resultName string) NodeObs {
 	o := NodeObs{Events: []EventObs{}}
 	if out.panicVal != nil {
 		o.Outcome, o.Detail = 1, fmt.Sprint(out.panicVal)
@@ -537,9 +557,13 @@ func observeNode(out runOut, sprintIdx int, nodeUUID string, exitUUIDs map[strin
 	run := out.session.Runs()[0]
 	o.RunStatus, o.SessionStatus = string(run.Status()), string(out.session.Status())
 	var step flows.Step
+	seen := 0
 	for _, s := range run.Path() {
 		if string(s.NodeUUID()) == nodeUUID {
-			step = s
+			if occurrence < 0 || seen == occurrence {
+				step = s
+			}
+			seen++
 		}
 	}
 	if step == nil {
@@ -612,6 +636,9 @@ func observeNode(out runOut, sprintIdx int, nodeUUID string, exitUUIDs map[strin
 }
 
 func (sc *Scenario) routingSprint() int {
+	if sc.SecondTimeout {
+		return 2
+	}
 	if sc.needsResume() {
 		return 1
 	}
@@ -623,7 +650,18 @@ func (sc *Scenario) observe(out runOut) *Obs {
 	for _, e := range sc.Exits {
 		exits[e.UUID] = true
 	}
-	obs := &Obs{R: observeNode(out, sc.routingSprint(), nodeR(), exits, sc.ResultName)}
+	occ := -1
+	if sc.SecondTimeout {
+		occ = 1
+	}
+	obs := &Obs{R: observeNodeAt(out, sc.routingSprint(), nodeR(), occ, exits, sc.ResultName), Timeouts: []string{}}
+	if out.err == nil && out.panicVal == nil && out.session != nil && len(out.session.Runs()) > 0 {
+		for _, e := range out.session.Runs()[0].Events() {
+			if _, is := e.(*events.WaitTimedOutEvent); is {
+				obs.Timeouts = append(obs.Timeouts, dates.FormatISO(e.CreatedOn()))
+			}
+		}
+	}
 	if sc.Pre && out.err == nil && out.panicVal == nil {
 		pe := map[string]bool{}
 		for j := 0; j < sc.PreExits; j++ {
